@@ -106,6 +106,13 @@ def gen_circuit(rng, profile):
         cmds.append({"name": name, "p0": p0, "extra": extra, "modes": modes, "dagger": dagger})
         if name == "RgateM" and rng.random() < 0.6:
             cmds.append({"name": name, "p0": p0, "extra": [], "modes": list(modes), "dagger": False})
+        if name == "RgateM" and rng.random() < 0.6:
+            # a plain gate of the same family directly next to the feed-forward gate, on the same mode
+            plain = {"name": "Rgate", "p0": Fraction(rng.choice([1, 2, -3, 4]), 8), "extra": [], "modes": list(modes), "dagger": rng.random() < 0.3}
+            if rng.random() < 0.5:
+                cmds.append(plain)
+            else:
+                cmds.insert(len(cmds) - 1, plain)
     return {"n": n, "cmds": cmds}
 
 
@@ -273,9 +280,30 @@ def culprit(item):
     return "+".join(lost) or "none"
 
 
+def feedforward_sweep():
+    """Fixed small circuits around a feed-forward gate (a gate whose parameter is a measured value of another mode)."""
+    F = Fraction
+    def c(name, p0=None, modes=(0,), dagger=False, extra=()):
+        return {"name": name, "p0": p0, "extra": list(extra), "modes": list(modes), "dagger": dagger}
+    meas = c("MeasureX", None, (1,))
+    ff = c("RgateM", ("meas", 1), (0,))
+    out = []
+    for plain in (c("Rgate", F(1, 2)), c("Rgate", F(-3, 8), dagger=True)):
+        out.append({"n": 2, "cmds": [c("Sgate", F(3, 16), extra=[0.5]), meas, plain, ff]})
+        out.append({"n": 2, "cmds": [c("Sgate", F(3, 16), extra=[0.5]), meas, ff, plain]})
+        out.append({"n": 2, "cmds": [c("Sgate", F(3, 16), extra=[0.5]), meas, plain, ff, plain]})
+    out.append({"n": 2, "cmds": [c("Sgate", F(3, 16), extra=[0.5]), meas, ff, ff]})
+    out.append({"n": 3, "cmds": [c("Sgate", F(3, 16), extra=[0.5]), meas, c("Rgate", F(1, 4), (2,)), ff, c("Rgate", F(1, 4), (0,)), c("Rgate", F(1, 8), (2,))]})
+    return out
+
+
 def correspondence(ctx):
     rng = ctx.rng
     items = []
+    for circ in feedforward_sweep():
+        it = judge(ctx, circ, "gauss")
+        if it:
+            items.append(it)
     for _ in range(ctx.budget(260, 2600)):
         profile = rng.choice(["gauss", "gauss", "fock", "bosonic"])
         circ = gen_circuit(rng, profile)
